@@ -238,6 +238,30 @@ pub fn record_c17(a: &Args) -> usize {
                     ":\u{FF21}1000302FFFB\r\n".as_bytes().to_vec(),
                     b":01000302fffb\r\n".to_vec(),
                     b":0100\x000302FFFB\r\n".to_vec(),
+                    // a complete, checksum-correct frame whose terminator is not exactly CR LF (bare LF, blank before CR LF, doubled CR,
+                    // CR LF LF handled as two lines): only ':' ... CR LF is a frame line
+                    {
+                        let mut t = Frame::from(Message::RequestOperation(Address(me), flipdot_core::Operation::ReceiveConfig)).to_bytes();
+                        t.extend_from_slice(b"\n");
+                        t
+                    },
+                    {
+                        let mut t = Frame::from(Message::RequestOperation(Address(me), flipdot_core::Operation::ReceiveConfig)).to_bytes();
+                        t.extend_from_slice(b" \r\n");
+                        t
+                    },
+                    {
+                        let mut t = Frame::from(Message::Hello(Address(me))).to_bytes();
+                        t.extend_from_slice(b"\r\r\n");
+                        t
+                    },
+                    {
+                        let mut t = Frame::from(Message::Hello(Address(me))).to_bytes();
+                        t.extend_from_slice(b"\t\r\n");
+                        t
+                    },
+                    // the heaviest frame there is (every byte 0xFF): a frame that is not a protocol message, to be forwarded
+                    crate::codec::seed_encoding(0xFFFF, 0xFF, &[0xFF; 255], true), // (the harness's own encoder)
                     // well-formed hex text with more than 255 data pairs whose length field is the count modulo 256 and whose
                     // checksum is right: no frame can hold it, so it cannot be decoded
                     {
